@@ -7,11 +7,24 @@ connected region (an all-black board has no white cell and is vacuously connecte
 Answer keys: is_white[y][x], row-major (h*w bools; True = white).
 Well-formed = every point value in {-1, 0, 1, 2, 3, 4}; a clue larger than the number of cells around its point is a
 legal, unsolvable, problem.
+
+Shapes: (h, w) = the small ladder x all layouts with <= k clues (cap rule), answered by filtering the cached list of all
+connected colourings; ("large", h, w, level) = larger boards with a small fixed set of instances (empty board where it can
+be enumerated, dense clue sets derived from rule-obeying grids, thinned and perturbed), answered by search() - an exact
+cell-by-cell search with clue and connectivity pruning; selftest() compares both enumerators.
 """
 
 from . import base
 
 _CAND = {}
+_LARGE = {}
+_SOLS = {}
+LIMIT = 400000  # search() refuses to return more answers than this (harness error, never a verdict)
+DENSE_CAP = 3000  # a derived instance with more answers than this is not used (the board is too loosely clued)
+
+
+class TooMany(RuntimeError):
+    pass
 
 
 def candidates(h, w):
@@ -25,6 +38,180 @@ def candidates(h, w):
     return _CAND[(h, w)]
 
 
+def around(h, w, py, px):
+    """Indices of the cells having lattice point (py, px) as a corner."""
+    return [cy * w + cx for cy in (py - 1, py) for cx in (px - 1, px) if 0 <= cy < h and 0 <= cx < w]
+
+
+def search(h, w, prob, limit=LIMIT):
+    """All colourings (True = white) obeying the rules for the clue table prob, as row-major tuples.
+
+    Cells are coloured in row-major order (of the transposed board when the board is wider than high, so that rows are
+    short).  A clue is tested as soon as the last cell around its point is coloured.  At the end of every row the white
+    components of the coloured part are computed: a component without a cell in that row can never grow again, so it
+    must be the only white component and every later cell must be black.  Only partial colourings without any
+    rule-obeying completion are cut, hence the enumeration is complete."""
+    if w > h:
+        tp = [[prob[y][x] for y in range(h + 1)] for x in range(w + 1)]
+        return [tuple(s[x * h + y] for y in range(h) for x in range(w)) for s in search(w, h, tp, limit)]
+    n = h * w
+    col = [False] * n
+    out = []
+    # points completed by colouring cell i
+    done = []
+    for i in range(n):
+        y, x = divmod(i, w)
+        pts = [(y, x)]
+        if x == w - 1:
+            pts.append((y, w))
+        if y == h - 1:
+            pts.append((h, x))
+            if x == w - 1:
+                pts.append((h, w))
+        done.append([(around(h, w, py, px), prob[py][px]) for py, px in pts if prob[py][px] >= 0])
+
+    def row_state(y):
+        """(ok, sealed) after row y is complete."""
+        cells = [(i // w, i % w) for i in range((y + 1) * w) if col[i]]
+        comps = base.components(cells)
+        closed = [c for c in comps if not any(cy == y for cy, _ in c)]
+        if not closed:
+            return True, False
+        if len(comps) > 1:
+            return False, False
+        return True, True
+
+    def rec(i, sealed):
+        if i == n:
+            if base.cells_connected([(k // w, k % w) for k in range(n) if col[k]]):
+                if len(out) >= limit:
+                    raise TooMany("creek oracle: more than %d answers on %dx%d" % (limit, h, w))
+                out.append(tuple(col))
+            return
+        for v in (False, True):
+            if v and sealed:
+                continue
+            col[i] = v
+            if any(sum(1 for k in cells if not col[k]) != c for cells, c in done[i]):
+                continue
+            s2 = sealed
+            if i % w == w - 1:
+                ok, s2 = row_state(i // w)
+                if not ok:
+                    continue
+            rec(i + 1, s2)
+        col[i] = False
+
+    rec(0, False)
+    return out
+
+
+def full_clues(h, w, col):
+    return [[sum(1 for k in around(h, w, py, px) if not col[k]) for px in range(w + 1)] for py in range(h + 1)]
+
+
+def patterns(h, w):
+    """A few hand-made colourings (True = white); only the ones with connected whites are used."""
+    pats = [
+        ("comb", lambda y, x: y == 0 or x % 2 == 0),
+        ("snake", lambda y, x: y % 2 == 0 or x == (w - 1 if (y // 2) % 2 == 0 else 0)),
+        ("ring", lambda y, x: y in (0, h - 1) or x in (0, w - 1)),
+        ("blocks", lambda y, x: y % 3 == 2 or x % 3 == 2),
+        ("far-corner-only", lambda y, x: (y, x) == (h - 1, w - 1)),
+        ("comb-t", lambda y, x: x == w - 1 or y % 2 == 1),
+        ("all-black", lambda y, x: False),
+        ("all-white", lambda y, x: True),
+    ]
+    out = []
+    for name, f in pats:
+        col = tuple(bool(f(y, x)) for y in range(h) for x in range(w))
+        if base.cells_connected([(i // w, i % w) for i in range(h * w) if col[i]]) and col not in out:
+            out.append(col)
+    return out
+
+
+def spaced(items, k):
+    """First, last and evenly spaced elements (k in total, fewer when there are fewer items)."""
+    if len(items) <= k:
+        return list(items)
+    return [items[(len(items) - 1) * j // (k - 1)] for j in range(k)]
+
+
+def variants(full, level):
+    """Clue tables derived from a complete clue table: complete, thinned, and with one clue off by one (on the complete
+    table, where the change nearly always makes the board unsolvable, and on thinned tables, where it often does not)."""
+    hh, ww = len(full), len(full[0])
+    n = hh * ww
+
+    def table(keep, pos=None, d=0):
+        t = [[full[y][x] if (keep(y * ww + x) or y * ww + x == pos) else -1 for x in range(ww)] for y in range(hh)]
+        if pos is not None:
+            v = full[pos // ww][pos % ww]
+            if not 0 <= v + d <= 4:
+                d = -d
+            t[pos // ww][pos % ww] = v + d
+        return t
+
+    everything = lambda i: True  # noqa: E731
+    last, mid, first, topright, botleft = n - 1, n // 2, 0, ww - 1, (hh - 1) * ww
+    lastcol, lastrow = (hh // 2) * ww + ww - 1, n - 1 - ww // 2
+    out = [
+        table(everything),
+        table(lambda i: i % 2 != 0),
+        table(lambda i: i % 3 == 1),
+        table(lambda i: i % 5 == 2),
+        table(everything, last, 1),
+        table(lambda i: i % 2 != 0, mid, 1),
+        table(lambda i: i % 3 == 1, lastcol, -1),
+    ]
+    if level > 0:
+        out += [
+            table(lambda i: i % 3 != 0),
+            table(lambda i: i % 2 != 1),
+            table(lambda i: i % 4 == 3),
+            table(lambda i: i % 7 == 3),
+            table(everything, first, 1),
+            table(everything, topright, -1),
+            table(everything, mid, -1),
+            table(lambda i: i % 3 == 1, lastrow, 1),
+            table(lambda i: i % 4 == 3, botleft, 1),
+            table(lambda i: i % 5 == 2, last, -1),
+            table(lambda i: i % 2 != 1, lastcol, 1),
+        ]
+    return out
+
+
+def large_instances(h, w, level):
+    """The fixed instance set of a large board (cached: the driver asks for it once per shard)."""
+    key = (h, w, level)
+    if key in _LARGE:
+        return _LARGE[key]
+    empty = [[-1] * (w + 1) for _ in range(h + 1)]
+    out = []
+    grids = patterns(h, w)
+    if h * w <= 16 or (min(h, w) <= 2 and h * w <= 20):
+        out.append(empty)  # the clue-free board, and a lone clue on the far corner / last row / last column
+        for py, px, v in ((h, w, 1), (h, w // 2, 2), (h // 2, w, 0), (h, w, 0), (h, w, 2))[: 1 if level == 0 else 5]:
+            t = [row[:] for row in empty]
+            t[py][px] = v
+            out.append(t)
+        grids = spaced(search(h, w, empty), 6)[1:-1] + grids  # first = all black, last = all white: in patterns()
+    # one grid per board on the quick tier (rotating through the list with the board size), three on the thorough tier
+    r = (h + 2 * w) % len(grids)
+    chosen = [grids[r]] if level == 0 else [grids[(r + j * max(1, len(grids) // 3)) % len(grids)] for j in range(3)]
+    for g in chosen:
+        for t in variants(full_clues(h, w, g), level):
+            if t in out:
+                continue
+            try:
+                _SOLS[repr(t)] = search(h, w, t, DENSE_CAP)
+            except TooMany:
+                continue
+            out.append(t)
+    _LARGE[key] = [{"height": h, "width": w, "problem": t} for t in out]
+    return _LARGE[key]
+
+
 class Creek(base.Rule):
     name = "creek"
 
@@ -32,9 +219,19 @@ class Creek(base.Rule):
         s = [(1, 1), (1, 2), (2, 1), (1, 3), (3, 1), (2, 2), (2, 3), (3, 2), (3, 3)]
         if tier != "quick":
             s += [(1, 4), (4, 1), (2, 4), (4, 2), (3, 4), (4, 3)]
+        if tier == "quick":
+            s += [("large", h, w, 0) for h, w in ((5, 5), (6, 6), (4, 6), (6, 4), (1, 12), (12, 1), (2, 10), (10, 2))]
+        else:
+            big = [(4, 4), (5, 5), (6, 6), (4, 6), (6, 4), (1, 12), (12, 1), (2, 10), (10, 2)]
+            big += [(4, 5), (5, 4), (5, 6), (6, 5), (7, 7), (3, 8), (8, 3), (1, 16), (16, 1), (2, 12), (12, 2), (5, 8), (8, 5)]
+            s += [("large", h, w, 1) for h, w in big]
         return s
 
     def instances(self, shape, cap):
+        if shape[0] == "large":
+            for p in large_instances(shape[1], shape[2], shape[3]):
+                yield p
+            return
         h, w = shape
         lays, k = base.layouts((h + 1) * (w + 1), -1, [0, 1, 2, 3, 4], cap)
         for pts in lays:
@@ -48,17 +245,19 @@ class Creek(base.Rule):
 
     def readings(self, p):
         h, w = p["height"], p["width"]
+        if h * w > 12:
+            key = repr(p["problem"])  # answers computed while the instance set was built (same function)
+            return [_SOLS[key] if key in _SOLS else search(h, w, p["problem"])]
         clues = []
         for py in range(h + 1):
             for px in range(w + 1):
                 c = p["problem"][py][px]
                 if c >= 0:
                     # the cells having (py, px) as a corner
-                    around = [cy * w + cx for cy in (py - 1, py) for cx in (px - 1, px) if 0 <= cy < h and 0 <= cx < w]
-                    clues.append((around, c))
+                    clues.append((around(h, w, py, px), c))
         out = []
         for col in candidates(h, w):
-            if all(sum(1 for i in around if not col[i]) == c for around, c in clues):
+            if all(sum(1 for i in cells if not col[i]) == c for cells, c in clues):
                 out.append(col)
         return [out]
 
@@ -66,6 +265,33 @@ class Creek(base.Rule):
         # creek.py has no built-in instance; a hand-made one: 2x2 board, corner clue 1 + centre clue 1: only the top-left
         # cell is black, the other three are white and connected
         return {"height": 2, "width": 2, "problem": [[1, -1, -1], [-1, 1, -1], [-1, -1, -1]]}, "hand-made (creek.py _main() has no instance): 2x2, corner 1 and centre 1, unique answer"
+
+
+def brute(h, w, prob):
+    """The small-board oracle (filter of all connected colourings), for selftest()."""
+    clues = [(around(h, w, py, px), prob[py][px]) for py in range(h + 1) for px in range(w + 1) if prob[py][px] >= 0]
+    return [col for col in candidates(h, w) if all(sum(1 for i in cells if not col[i]) == c for cells, c in clues)]
+
+
+def selftest():
+    """search() against the brute-force filter: clue-free boards, every single clue, and the dense family."""
+    for h, w in ((1, 1), (1, 2), (2, 1), (1, 5), (5, 1), (2, 2), (2, 3), (3, 2), (3, 3), (2, 5), (5, 2), (3, 4), (4, 3), (4, 4)):
+        empty = [[-1] * (w + 1) for _ in range(h + 1)]
+        tables = [empty]
+        for py in range(h + 1):
+            for px in range(w + 1):
+                for v in range(5):
+                    t = [row[:] for row in empty]
+                    t[py][px] = v
+                    tables.append(t)
+        allc = candidates(h, w)
+        for g in spaced(allc, 4) + patterns(h, w)[:3]:
+            tables += list(variants(full_clues(h, w, g), 1))
+        for t in tables:
+            assert sorted(search(h, w, t)) == sorted(brute(h, w, t)), (h, w, t)
+    # every instance derived from a grid G keeps G as an answer when no clue was changed
+    g = patterns(5, 5)[0]
+    assert g in search(5, 5, full_clues(5, 5, g))
 
 
 RULE = Creek()
